@@ -87,7 +87,11 @@ Definition yw_ok (r a : list Qc) (p : nat) (e : Qc) : bool :=
 
 Definition holds_lev (c : lcase) : bool :=
   match l_obs c with
-  | FErr _ => true                       (* the text only speaks about runs that do not divide by zero *)
+  | FErr s =>                            (* ParCorError is legitimate only when the recursion does divide by zero
+                                            (C10_levinson_guard says exactly when); other exceptions: the text is silent *)
+      if String.eqb s "ParCorError"
+      then match levinson_durbin (l_r c) (l_order c) with Err ParCorError => true | _ => false end
+      else true
   | FOk a e =>
       let p := match l_order c with None => (List.length (l_r c) - 1)%nat | Some p => p end in
       yw_ok (l_r c) a p e
@@ -109,7 +113,10 @@ Fixpoint bump (d : Qc) (i : nat) (a : list Qc) : list Qc :=
 
 Definition holds_kac (c : acase) : bool :=
   match a_obs c with
-  | FErr _ => true
+  | FErr s =>
+      if String.eqb s "ParCorError"
+      then match kautocor (a_blk c) (a_order c) with Err ParCorError => true | _ => false end
+      else true
   | FOk a e =>
       let x := a_blk c in
       let p := match a_order c with None => (List.length x - 1)%nat | Some p => p end in
@@ -134,6 +141,29 @@ Definition holds_kcv (c : ccase) : bool :=
       Qc_eqb (cf a 0) 1 && (List.length a <=? S p)%nat
       && forallb (fun i => Qc_eqb (cov_row x a p i) 0) (seq 1 p)
       && Qc_eqb e (energy_cov a x p)
+  end.
+
+(* ------------------------------------------------------------------ scale, float runs *)
+(* The same call on FLOAT inputs and on the inputs multiplied by a power of two c (exact in binary floating point, no
+   overflow / underflow in range): every float operation of the code then rounds alike, so the scaled run must
+   return the same coefficients bit for bit and the error times c (lags scaled: fs_pow = 1) or c * c (block scaled:
+   fs_pow = 2).  That is a statement about the tie (corr); the property text itself only demands that the scaled
+   call returns a monic filter whenever the unscaled one does (the recursion divides by zero on neither). *)
+Record fscase := FSC { fs_pow : nat; fs_c : Qc; fs_base : fobs; fs_scaled : fobs }.
+
+Definition corr_fs (c : fscase) : bool :=
+  match fs_base c, fs_scaled c with
+  | FOk n e, FOk n' e' =>
+      list_eqb Qc_eqb n n' && Qc_eqb e' ((if (fs_pow c =? 1)%nat then fs_c c else fs_c c * fs_c c) * e)
+  | FErr s, FErr s' => String.eqb s s'
+  | _, _ => false
+  end.
+
+Definition holds_fs (c : fscase) : bool :=
+  match fs_base c, fs_scaled c with
+  | FOk _ _, FOk n' _ => Qc_eqb (cf n' 0) 1
+  | FOk _ _, FErr _ => false
+  | FErr _, _ => true
   end.
 
 (* ------------------------------------------------------------------ call histories *)
